@@ -5,6 +5,7 @@ import (
 	"encoding/json"
 	"errors"
 	"fmt"
+	"io"
 	"net/http"
 	"net/http/httptest"
 	"strings"
@@ -156,6 +157,27 @@ func c14String(r *fw.Run, key, s string) {
 		err = json.Unmarshal([]byte(`{"id":`+enc+`,"T":`+enc+`}`), &st)
 		c14Judge(r, key, "UnmarshalJSON-struct", "id", fw.Q(fw.Trunc(enc, 80)), decoded, isStr, st.ID, err, true)
 		c14Judge(r, key, "UnmarshalJSON-struct", "type", fw.Q(fw.Trunc(enc, 80)), decoded, isStr, st.T, err, true)
+		// a whole Message decoded from JSON (whatever document forms it accepts: a string of wire text,
+		// an object with field names in any spelling): what it ends up with is single-line or unset
+		for _, doc := range []string{
+			`{"ID":` + enc + `,"Type":` + enc + `}`,
+			`{"id":` + enc + `,"type":` + enc + `,"event":` + enc + `,"data":"x"}`,
+			`{"LastEventID":` + enc + `,"Event":` + enc + `,"Data":["x"]}`,
+			enc,
+		} {
+			var m sse.Message
+			merr := json.Unmarshal([]byte(doc), &m)
+			r.Count("message_json_documents", 1)
+			for _, f := range []struct {
+				kind string
+				v    fieldVal
+			}{{"id", m.ID}, {"type", m.Type}} {
+				if f.v.IsSet() && hasNewline(f.v.String()) {
+					r.Violation(key, []string{"multiline_value_set", "route_json.Unmarshal(Message)", f.kind}, map[string]any{"document": fw.Q(fw.Trunc(doc, 200)), "err": fmt.Sprint(merr), "value": fw.Q(fw.Trunc(f.v.String(), 100))},
+						"C14: json.Unmarshal into a Message left a set %s containing a line break (error: %v)", f.kind, merr)
+				}
+			}
+		}
 	}
 	// Scan: string, []byte
 	{
@@ -414,6 +436,14 @@ func c15Message(r *fw.Run, key string, b *builtMsg, faultAll bool) {
 				"C15: UnmarshalText(MarshalText(m)) does not reproduce the message (fields ok=%v)", okFields)
 		}
 		r.Count("roundtrips", 1)
+		// "UnmarshalText extracts the first event found": the same text followed by another message's
+		var m3 sse.Message
+		if terr := m3.UnmarshalText([]byte(enc + "id: tail\ndata: t1\n: tc\ndata: t2\n\n")); terr != nil {
+			r.Violation(key, []string{"roundtrip_with_trailing_message"}, map[string]any{"ops": b.Ops, "wire": fw.Q(fw.Trunc(enc, 400))}, "C15: UnmarshalText(MarshalText(m) + another message) failed: %v", terr)
+		} else if re3 := m3.String(); !c15SameAsModel(re3, b.Model) || m3.ID.IsSet() != b.Model.HasID || m3.ID.String() != b.Model.ID || m3.Type.IsSet() != b.Model.HasType || m3.Type.String() != b.Model.Type {
+			r.Violation(key, []string{"roundtrip_with_trailing_message"}, map[string]any{"ops": b.Ops, "wire": fw.Q(fw.Trunc(enc, 400)), "reencoded": fw.Q(fw.Trunc(re3, 400))},
+				"C15: UnmarshalText(MarshalText(m) + another message) does not reproduce m (the following message leaks into it, or m is cut short)")
+		}
 		// decode something else into the same receiver: a clone taken before must keep its content
 		keep := m2.Clone()
 		keepEnc := keep.String()
@@ -424,39 +454,56 @@ func c15Message(r *fw.Run, key string, b *builtMsg, faultAll bool) {
 			}
 		}
 	}
-	// (b) fault injection at every Write call
-	probe := &mon.FaultWriter{FailAt: -1}
-	b.Msg.WriteTo(probe)
-	W := probe.Calls
-	r.Max("max_write_calls_per_message", int64(W))
-	for k := 0; k < W; k++ {
-		if W > 60 && k > 12 && k < W-12 {
-			stride := W / 24
-			if faultAll {
-				stride = W / 96
-			}
-			if stride > 1 && k%stride != 0 {
-				continue
-			}
+	// (b) fault injection at every Write call, for a plain io.Writer and for writers that offer the
+	// optional WriteByte / WriteString methods as well (every call of any of them is one operation)
+	wrap := map[string]func(*mon.FaultWriter) io.Writer{
+		"plain":        func(w *mon.FaultWriter) io.Writer { return w },
+		"bytewriter":   func(w *mon.FaultWriter) io.Writer { return mon.FaultByteWriter{FaultWriter: w} },
+		"stringwriter": func(w *mon.FaultWriter) io.Writer { return mon.FaultStringWriter{FaultWriter: w} },
+		"both":         func(w *mon.FaultWriter) io.Writer { return mon.FaultBothWriter{FaultWriter: w} },
+	}
+	variants := []string{"plain", []string{"bytewriter", "stringwriter", "both"}[len(enc)%3]}
+	for _, variant := range variants {
+		mk := wrap[variant]
+		probe := &mon.FaultWriter{FailAt: -1}
+		pn, perr := b.Msg.WriteTo(mk(probe))
+		if perr != nil || int(pn) != len(enc) || probe.Buf.String() != enc {
+			r.Violation(key, []string{"writer_variant_output_differs", variant}, map[string]any{"ops": b.Ops, "writer": variant, "n": pn, "err": fmt.Sprint(perr)}, "C15: WriteTo into a %s writer returned (%d, %v) and wrote %d bytes; the encoding has %d", variant, pn, perr, probe.Buf.Len(), len(enc))
+			continue
 		}
-		size := probe.CallSizes[k]
-		for _, j := range []int{0, 1, size - 1, size} {
-			if j < 0 || j > size || (j == 1 && size < 2) {
-				continue
+		W := probe.Calls
+		r.Max("max_write_calls_per_message", int64(W))
+		for k := 0; k < W; k++ {
+			if W > 60 && k > 12 && k < W-12 {
+				stride := W / 24
+				if faultAll {
+					stride = W / 96
+				}
+				if stride > 1 && k%stride != 0 {
+					continue
+				}
 			}
-			fwr := &mon.FaultWriter{FailAt: k, Accept: j, Err: errInjectedWrite}
-			gn, gerr := b.Msg.WriteTo(fwr)
-			r.Count("faulted_writes", 1)
-			acc := fwr.Buf.String()
-			switch {
-			case gerr != errInjectedWrite:
-				r.Violation(key, []string{"fault_error_lost"}, map[string]any{"ops": b.Ops, "fail_at_call": k, "accept": j, "err": fmt.Sprint(gerr)}, "C15: WriteTo did not return the writer's error (got %v)", gerr)
-			case int(gn) != len(acc):
-				r.Violation(key, []string{"fault_count_wrong"}, map[string]any{"ops": b.Ops, "fail_at_call": k, "accept": j, "n": gn, "accepted": len(acc)}, "C15: WriteTo returned n=%d but the writer accepted %d bytes", gn, len(acc))
-			case !strings.HasPrefix(enc, acc):
-				r.Violation(key, []string{"fault_not_prefix"}, map[string]any{"ops": b.Ops, "fail_at_call": k, "accept": j}, "C15: bytes written before the failure are not a prefix of the encoding")
-			case fwr.AfterFail != 0:
-				r.Violation(key, []string{"write_after_failure"}, map[string]any{"ops": b.Ops, "fail_at_call": k, "accept": j, "after": fwr.AfterFail}, "C15: %d Write calls after the writer had failed", fwr.AfterFail)
+			size := probe.CallSizes[k]
+			for _, j := range []int{0, 1, size - 1, size} {
+				if j < 0 || j > size || (j == 1 && size < 2) {
+					continue
+				}
+				fwr := &mon.FaultWriter{FailAt: k, Accept: j, Err: errInjectedWrite}
+				gn, gerr := b.Msg.WriteTo(mk(fwr))
+				r.Count("faulted_writes", 1)
+				r.Count("faulted_writes_"+variant, 1)
+				acc := fwr.Buf.String()
+				wit := map[string]any{"ops": b.Ops, "writer": variant, "fail_at_call": k, "accept": j, "n": gn, "accepted": len(acc), "err": fmt.Sprint(gerr)}
+				switch {
+				case gerr != errInjectedWrite:
+					r.Violation(key, []string{"fault_error_lost"}, wit, "C15: WriteTo did not return the writer's error (got %v)", gerr)
+				case int(gn) != len(acc):
+					r.Violation(key, []string{"fault_count_wrong"}, wit, "C15: WriteTo returned n=%d but the writer accepted %d bytes", gn, len(acc))
+				case !strings.HasPrefix(enc, acc):
+					r.Violation(key, []string{"fault_not_prefix"}, wit, "C15: bytes written before the failure are not a prefix of the encoding")
+				case fwr.AfterFail != 0:
+					r.Violation(key, []string{"write_after_failure"}, wit, "C15: %d Write calls after the writer had failed", fwr.AfterFail)
+				}
 			}
 		}
 	}
